@@ -541,6 +541,63 @@ def job_fifo(res, rng, w, home, job):
         res.nt("special|%s" % col)
 
 
+def job_longpath(res, rng, w, home, job):
+    """Entries whose full path is longer than PATH_MAX (4096) in a directory that can still be listed: their attributes are
+    their own (the OS hands them out relative to the open directory), and a condition and its negation split them."""
+    seg = "n" * 180
+    here = os.getcwd()
+    sizes = {}
+    try:
+        os.chdir(w)
+        os.mkdir("lp")
+        os.chdir("lp")
+        depth = 0
+        while len(os.path.join(w, "lp")) + (depth + 1) * (len(seg) + 1) < 3950:
+            os.mkdir(seg)
+            os.chdir(seg)
+            depth += 1
+        for k, sz in enumerate((0, 3, 7, 100, 4097)):
+            nm = "f%d-" % k + "x" * 200
+            with open(nm, "wb") as f:
+                f.write(b"z" * sz)
+            os.chmod(nm, 0o640 if k % 2 else 0o755)
+            sizes[nm] = sz
+    finally:
+        os.chdir(here)
+    deep_dir = "lp/" + "/".join([seg] * depth)
+    cols = ["path", "name", "size", "mode", "is_file", "hardlinks"]
+    rows, ctx = run_cols(res, w, home, cols, "lp")
+    if rows is None:
+        return
+    seen = {}
+    for row in rows:
+        c = dict(zip(cols, row))
+        if c["name"] in sizes:
+            seen[c["name"]] = c
+            want = {"path": deep_dir + "/" + c["name"], "size": str(sizes[c["name"]]), "is_file": "true", "hardlinks": "1",
+                    "mode": "-rw-r-----" if c["name"].startswith(("f1-", "f3-")) else "-rwxr-xr-x"}
+            for k, v in want.items():
+                if c[k] != v:
+                    res.viol("entry with a %d-byte path: %s printed %r, expected %r" % (len(os.path.join(w, want["path"])), k, c[k][:80], v[:80]), ctx)
+                    return
+    if set(seen) != set(sizes):
+        res.viol("entries beyond PATH_MAX: %d of %d listed" % (len(seen), len(sizes)), ctx)
+        return
+    for cond in ("size > 5", "size between 1 and 100", "is_file", "hardlinks = 1", "mode = '-rw-r-----'"):
+        got = []
+        for c2 in (cond, "not " + cond if " " not in cond else "not (%s)" % cond):
+            r, ctx2 = run_cols(res, w, home, ["name"], "lp", where=c2)
+            if r is None:
+                return
+            got.append(set(x[0] for x in r if x[0] in sizes))
+        if got[0] & got[1] or (got[0] | got[1]) != set(sizes):
+            res.viol("entries beyond PATH_MAX: `%s` and its negation do not split them (%d + %d of %d)" % (cond, len(got[0]), len(got[1]), len(sizes)), ctx2)
+            return
+    res.cover("entry_kinds", "path-beyond-PATH_MAX")
+    res.nt("longpath|%d" % depth)
+    res.count("entries_beyond_path_max", len(sizes))
+
+
 def run_job(job):
     res = JobResult()
     rng = random.Random(job["seed"])
@@ -549,7 +606,7 @@ def run_job(job):
         w = runner.work_dir(sc)
         home = runner.make_home(sc)
         {"perms": job_perms, "tree": job_tree, "xattr": job_xattr, "caps": job_caps, "extcfg": job_extcfg,
-         "zipmodes": job_zipmodes, "fifo": job_fifo}[job["kind"]](res, rng, w, home, job)
+         "zipmodes": job_zipmodes, "fifo": job_fifo, "longpath": job_longpath}[job["kind"]](res, rng, w, home, job)
     finally:
         runner.rm_scratch(sc)
     return res
@@ -577,6 +634,7 @@ def main(chk):
         for lo in range(0, len(perms), 1024):
             jobs.append({"id": "zip-%s-%d" % (kind, lo), "kind": "zipmodes", "seed": 0, "kinds": [kind], "perms": perms[lo:lo + 1024]})
     content_cols = ["line_count", "sha1", "sha256", "is_shebang", "contains('a')", "has_xattrs", "caps", "has_xattr(user.a)", "xattr(user.a)", "has_caps()"]
+    jobs.append({"id": "longpath", "kind": "longpath", "seed": 0})
     for i in range(0, len(content_cols), 2):
         jobs.append({"id": "fifo%d" % i, "kind": "fifo", "seed": 0, "cols": content_cols[i:i + 2]})
     if not quick:
